@@ -126,7 +126,8 @@ class TreeBuilder:
         if nullable_hint and self.tick() % 5 == 0:
             return None
         if t[0] == "list":
-            n = self.tick() % 3
+            # variants >= 100 grow longer lists (3-6 items) so that per-item bookkeeping beyond the second item is exercised
+            n = (3 + self.tick() % 4) if self.variant >= 100 else self.tick() % 3
             return [self.value(t[1], depth, True) for _ in range(n)]
         td = self.s.type(t[1])
         if td.kind in ("SCALAR", "ENUM"):
